@@ -24,6 +24,13 @@ def grammar(run, fam, family='syntax', profiles=('debug',)):
     tlc_replay(run, 'grammar-' + fam, 'MC_Grammar.tla', 'MC_Grammar_%s_%s.cfg' % (fam, run.tier), family, profiles=profiles, xss='256m')
 
 
+def parser_soup(run, cfgs, profiles=('debug',)):
+    """token soup lexed and parsed by the recogniser MODEL (Lexer.tla + Parser.tla); the real parser must give the same verdict:
+    accepted with the same tree, or rejected at the same line."""
+    for c in cfgs:
+        tlc_replay(run, 'parser-' + c, 'MC_Parser.tla', 'MC_Parser_%s.cfg' % c, 'verdict', profiles=profiles, xss='256m', timeout_ms=5000)
+
+
 def table(run, kinds_cfg):
     cfg = 'MC_Table_%s_%s.cfg' % (kinds_cfg, run.tier)
     tlc_replay(run, 'table-' + kinds_cfg, 'MC_Table.tla', cfg, 'table')
@@ -133,11 +140,14 @@ def C01(run):
     run.rule = ('texts enumerated by TLC from the lexer model (all texts up to the bound over character alphabets; all sequences of '
                 'token-class fragments = "token soup") plus TLC -simulate random long texts; each is parsed by the real parser in the '
                 'debug and the release profile in a supervised worker process (panic, abort and hang are observations) and an error '
-                'must render; the model itself checks Terminates / Progress / in-bounds slices; non-trivial = non-blank text')
+                'must render; the model itself checks Terminates / Progress / in-bounds slices; the recogniser model Parser.tla is total '
+                '(ParserTotal: a verdict for every soup text, top-level loop bounded) and its verdict (tree or error line) must be the real '
+                'parser\'s in both profiles; non-trivial = non-blank text')
     run.assumptions += ['release-mode undefined behaviour without a symptom is not observable; the model checks the slice preconditions instead']
     quick = run.tier == 'quick'
     for c in (['core3', 'uni3', 'kw4', 'soupfull2', 'souptiny3'] if quick else ['core4', 'uni4', 'kw5', 'multi5', 'soupfull3', 'soupcore4', 'souptiny5']):
         tlc_replay(run, 'total-' + c, 'MC_Lex.tla', 'MC_Lex_%s.cfg' % c, 'total', profiles=('debug', 'release'), timeout_ms=5000)
+    parser_soup(run, ['full2', 'tiny3'] if quick else ['full3', 'core4', 'tiny5', 'stmt6'], profiles=('debug', 'release'))
     n = 300 if quick else 5000
     tlc_replay(run, 'total-sim', 'MC_Lex.tla', 'MC_Lex_sim.cfg', 'total', profiles=('debug', 'release'),
                simulate='num=%d' % n, workers=8, timeout_ms=5000)
@@ -305,8 +315,12 @@ def C13(run):
                 'cannot start a statement, unterminated string) x 11 contexts (first / last line with and without final newline, after '
                 'multi-line strings and comments, inside loop / else / after a function, after blank lines) x 2 letter cases; the parser '
                 'must reject the text and name the line of the fault (1 + line breaks before it)')
-    run.assumptions += ['the catalogue is fixed (hand-written, context-independent by construction); acceptance is decided by the real parser only']
+    run.rule += ('; all token-soup texts up to the bound are parsed by the recogniser model Parser.tla (mirror of parser.rs, error location = '
+                 'current token\'s line or the lexer\'s line at end of input) and the real parser must reject exactly the same texts at exactly the same line')
+    run.assumptions += ['the catalogue is hand-written (context-independent by construction); for soup texts "the line of the offending token" is the recogniser model\'s']
     grammar(run, 'fault', family='fault')
+    # beyond the catalogue: every token-soup text; the recogniser model decides acceptance and the error line
+    parser_soup(run, ['full2', 'tiny3', 'core3'] if run.tier == 'quick' else ['full3', 'core4', 'tiny5', 'stmt6'])
 
 
 def C20(run):
